@@ -633,3 +633,74 @@ pub fn atom_text(index: u64) -> String {
 pub fn atom_len(index: u64) -> usize {
     Atom::from(index).len()
 }
+
+// ---------------------------------------------------------------------------
+// Which catch/3 received a ball (identification of catch-all sites).
+// ---------------------------------------------------------------------------
+
+thread_local! {
+    static CATCH_TRACE_ON: Cell<bool> = const { Cell::new(false) };
+    static CATCH_TRACE: RefCell<Vec<String>> = const { RefCell::new(Vec::new()) };
+}
+
+/// Start (and clear) or stop recording the callers of the catch/3 goals that receive a ball.
+pub fn set_catch_trace(on: bool) {
+    CATCH_TRACE_ON.set(on);
+    CATCH_TRACE.with(|t| t.borrow_mut().clear());
+}
+
+/// The recorded callers, oldest first (at most 32).
+pub fn take_catch_trace() -> Vec<String> {
+    CATCH_TRACE.with(|t| std::mem::take(&mut *t.borrow_mut()))
+}
+
+/// `module:name/arity` of the predicate whose code contains address `addr`.
+pub fn predicate_at(machine: &Machine, addr: usize) -> String {
+    let tbl = &machine.machine_st.arena.code_index_tbl;
+    let mut best: Option<(usize, String)> = None;
+
+    let mut visit = |module: &str, key: &(Atom, usize), ci: &crate::machine::machine_indices::CodeIndex| {
+        if let Some(p) = tbl.get_entry((*ci).into()).local() {
+            if p <= addr && best.as_ref().map(|(bp, _)| p > *bp).unwrap_or(true) {
+                best = Some((p, format!("{}:{}/{}", module, key.0.as_str(), key.1)));
+            }
+        }
+    };
+
+    for (key, ci) in machine.indices.code_dir.iter() {
+        visit("user", key, ci);
+    }
+
+    for (name, module) in machine.indices.modules.iter() {
+        let name = name.as_str().to_string();
+        for (key, ci) in module.code_dir.iter() {
+            visit(&name, key, ci);
+        }
+    }
+
+    best.map(|(_, s)| s).unwrap_or_else(|| format!("<code {addr}>"))
+}
+
+/// Called by `'$get_ball'` when a catch/3 goal picks up the current ball.
+pub(crate) fn on_get_ball(machine: &Machine) {
+    if !CATCH_TRACE_ON.get() {
+        return;
+    }
+
+    let st = &machine.machine_st;
+
+    if st.ball.stub.is_empty() {
+        // catch/4's second clause was reached by ordinary backtracking
+        return;
+    }
+
+    let cp = st.stack.index_and_frame(st.e).prelude.cp;
+    let who = predicate_at(machine, cp);
+
+    CATCH_TRACE.with(|t| {
+        let mut t = t.borrow_mut();
+        if t.len() < 32 {
+            t.push(who);
+        }
+    });
+}
